@@ -283,9 +283,11 @@ def run_case(ctx, c):
                     for k, t in enumerate(rt):
                         if k == 0:
                             continue
-                        j = int(np.argmin(np.abs(rec_t - t)))
-                        if rx.shape[1] == rec_x.shape[1] and not (np.allclose(rx[k], rec_x[j], rtol=1e-12, atol=1e-15)
-                                                                   and np.allclose(ry[k], rec_y[j], rtol=1e-12, atol=1e-15)):
+                        # recorded rows whose stamp equals this one to within rounding (a run can store two rows one ulp
+                        # apart, e.g. 0.4666.. + 1/30 and the end time 0.5): any of them may be the one replayed
+                        near = [j for j in range(len(rec_t)) if abs(rec_t[j] - t) <= 1e-12 * (1 + abs(t))] or [int(np.argmin(np.abs(rec_t - t)))]
+                        if rx.shape[1] == rec_x.shape[1] and not any(np.allclose(rx[k], rec_x[j], rtol=1e-12, atol=1e-15)
+                                                                     and np.allclose(ry[k], rec_y[j], rtol=1e-12, atol=1e-15) for j in near):
                             ctx.fail('csv_replay_values_differ', dict(case=brief, t=float(t)), sig=sig)
                             break
                 else:
